@@ -206,6 +206,23 @@ def record(job):
         from jellyfysh.mediator.multi_process_mediator import multi_process_mediator as mpm
         shim = ScheduleShim(job["mp"].get("schedule_seed", 0))
         mpm.connection = shim
+        delay = job["mp"].get("or_clear_delay")
+        if delay:
+            # widen the window of the workers' or-event protocol: the or-event returned by the repository's create_or_event clears
+            # itself only after a short sleep (as if the worker were descheduled between reading the two events and clearing)
+            orig_create = mpm.create_or_event
+            import time as _time
+
+            def slow_create(*events):
+                e = orig_create(*events)
+                fast_clear = e.clear
+
+                def clear():
+                    _time.sleep(delay)
+                    fast_clear()
+                e.clear = clear
+                return e
+            mpm.create_or_event = slow_create
     mediator, config, standin = build(job, tmpdir)
     if job.get("per_handler_rng"):
         for i, h in enumerate(mediator._activator.get_event_handlers()):
@@ -295,6 +312,11 @@ def instrument(mediator, job, config, standin):
     taggers = list(act._taggers)
     tag_of = {id(h): t.tag for t in taggers for h in t.get_event_handlers()}
     extras = set(job.get("extras") or [])
+    import copy as _copy
+    pristine = {}
+    for t in taggers:
+        # (taken before the first event: nothing has been deactivated yet; a resumed run has no such moment and uses its own taggers)
+        pristine[id(t)] = t if job.get("resume") else _copy.copy(t)
 
     def snapshot():
         return flat_units(sh.extract_global_state())
@@ -362,17 +384,25 @@ def instrument(mediator, job, config, standin):
             cur["created"] = [(hid[id(h)], None if ids is None else [tuple(i) for i in ids]) for h, ids in r.items()]
             cur["preceding"] = None if preceding is None else hid[id(preceding)]
             # C09 oracle data: what each tagger generates from scratch now, and what is pending per tagger
-            fresh, pending, activated = {}, {}, {}
+            fresh, pending, activated, fresh_pristine = {}, {}, {}, {}
             for t in taggers:
                 is_act = t.__dict__.get("yield_identifiers_send_event_time") is not t._deactivated_yield_identifiers_send_event_time
                 activated[t.tag] = bool(is_act)
                 try:
+                    # what a tagger that was never deactivated generates for this state (a shallow copy taken before the run: it
+                    # shares the internal state and the factor maps with the run's tagger but none of its activation history);
+                    # whether the run's tagger *should* generate is decided by the oracle from the wiring's activate/deactivate lists
+                    fresh_pristine[t.tag] = [None if ids is None else tuple(tuple(i) for i in ids)
+                                             for ids in pristine[id(t)].yield_identifiers_send_event_time(cur["_active_obj"])]
+                    # and what the run's own tagger generates now (empty while it is deactivated)
                     fresh[t.tag] = [None if ids is None else tuple(tuple(i) for i in ids)
                                     for ids in t.yield_identifiers_send_event_time(cur["_active_obj"])]
                 except Exception as e:  # a tagger that cannot yield on this state (e.g. not yet started)
                     fresh[t.tag] = "exc:" + type(e).__name__
+                    fresh_pristine[t.tag] = "exc:" + type(e).__name__
                 pending[t.tag] = [hid[id(h)] for h in act._running_event_handlers[t]]
             cur["fresh"], cur["pending"], cur["activated"] = fresh, pending, activated
+            cur["fresh_pristine"] = fresh_pristine
             if "occupancy" in extras:
                 cur["occupancy"] = dump_occupancy(act)
             if act.__dict__.get("get_event_handlers_to_run") is not get_to_run:
